@@ -140,7 +140,7 @@ def scan_sources(files):
     return bad
 
 
-def audit(pid, modules, allow_bv_decide):
+def audit(pid, modules, allow_bv_decide, extra_names=()):
     """`#print axioms` for every theorem of the given Props modules. Returns (theorems, problems):
     theorems = [{name, axioms}], problems = list of strings (missing theorem, disallowed axiom)."""
     os.makedirs(GEN, exist_ok=True)
@@ -148,6 +148,7 @@ def audit(pid, modules, allow_bv_decide):
     for mod in modules:
         path = os.path.join(LEAN, mod.replace(".", "/") + ".lean")
         names += theorem_names(path)
+    names += list(extra_names)
     audit_path = os.path.join(GEN, f"Audit{pid}.lean")
     with open(audit_path, "w") as f:
         for mod in modules:
@@ -310,7 +311,7 @@ class Run:
         return 1 if self.violations else 0
 
 
-def standard_proof_step(run, modules, allow_bv_decide, extra_targets=()):
+def standard_proof_step(run, modules, allow_bv_decide, extra_targets=(), extra_theorems=()):
     """lake build + source scan + axiom audit for a property. Returns True when all obligations are discharged."""
     targets = list(modules) + ["driver"] + list(extra_targets)
     ok, log = lake_build(targets)
@@ -333,7 +334,7 @@ def standard_proof_step(run, modules, allow_bv_decide, extra_targets=()):
         run.violation("broken-obligation", {"kind": "forbidden-construct"}, "forbidden construct in Lean sources: " + "; ".join(bad[:5]),
                       {"lines": bad}, found_input=False)
         return False
-    theorems, problems = audit(run.pid, modules, allow_bv_decide)
+    theorems, problems = audit(run.pid, modules, allow_bv_decide, extra_theorems)
     run.add_theorems(theorems)
     if problems:
         run.coverage["discharged"] = max(0, len(theorems) - len(problems))
